@@ -22,11 +22,27 @@ theorem publishTail_eq (b : B) (c : Cli) (r : PubReq) (s : Sess) :
         let b1 := (b.setSess { s with unack := unackAfterPub s.unack r.qos r.pid }).pubRetain r false
         let bm := b1.deliverMsg c.cid (pubMsg r) r.hints r.rapHint
         bm.1.pubAck c r bm.2
-      else (b.setSess s).pubAck c r false := by
+      else ((b.setSess s).pubDupQuota c r true).pubAck c r false := by
   unfold B.publishTail forwarded unackAfterPub B.pubRetain
+  have hdq : ∀ X : B, X.pubDupQuota c r false = X := fun X => by simp [B.pubDupQuota]
   cases hq : (r.qos == 2) <;> cases hc : s.unack.contains r.pid <;>
-    simp only [hq, hc, Bool.and_true, Bool.and_false, Bool.not_true, Bool.not_false, Bool.true_and, Bool.false_and,
+    simp only [hq, hc, hdq, Bool.and_true, Bool.and_false, Bool.not_true, Bool.not_false, Bool.true_and, Bool.false_and,
       if_true, if_false, Bool.false_eq_true]
+
+theorem pubDupQuota_sess? (b : B) (c : Cli) (r : PubReq) (d : Bool) (cid : String) :
+    (b.pubDupQuota c r d).sess? cid = b.sess? cid := by
+  unfold B.pubDupQuota
+  split
+  · split <;> rfl
+  · rfl
+
+theorem pubDupQuota_cli? (b : B) (c : Cli) (r : PubReq) (d : Bool) (c0 : Cli) (h : b.cli? r.conn = some c0) :
+    ∃ c', (b.pubDupQuota c r d).cli? r.conn = some c' ∧ c'.cid = c0.cid := by
+  unfold B.pubDupQuota
+  split
+  · rw [h]
+    exact ⟨{ c0 with quota := min (c0.quota + 1) b.cfg.recvMax }, by rw [cli?_setCli, if_pos (cli?_some h).2], rfl⟩
+  · exact ⟨c0, h, rfl⟩
 
 theorem pubRetain_sess? (b : B) (r : PubReq) (d : Bool) (cid : String) : (b.pubRetain r d).sess? cid = b.sess? cid := by
   unfold B.pubRetain
@@ -94,7 +110,9 @@ theorem publishTail_after (b : B) (c : Cli) (r : PubReq) (s : Sess) (c0 : Cli) (
       have : (r.qos == 2 && s.unack.contains r.pid) = true := by simpa using hf
       simp only [Bool.and_eq_true] at this
       simp only [this.1, this.2, Bool.not_true, Bool.and_false, Bool.false_eq_true, if_false]
-    refine ⟨⟨s, by rw [pubAck_sess?, sess?_setSess]; simp, hu.symm⟩, pubAck_cli? _ c r false c0 hc⟩
+    obtain ⟨c1, hc1, hcid1⟩ := pubDupQuota_cli? (b.setSess s) c r true c0 hc
+    obtain ⟨c', hc', hcid'⟩ := pubAck_cli? _ c r false c1 hc1
+    exact ⟨⟨s, by rw [pubAck_sess?, pubDupQuota_sess?, sess?_setSess]; simp, hu.symm⟩, c', hc', hcid'.trans hcid1⟩
 
 /-- the session, the connection and the H-stream output after a PUBREL -/
 theorem pubrelIn_after (b : B) (conn : String) (pid : Nat) (c : Cli) (s : Sess)
